@@ -88,6 +88,16 @@ def judge_empty(case):
     return None
 
 
+def has_negative_key(n):
+    """a mapping with a negative integer key can address one list element under two spellings (-1 and len-1): with such a
+    mapping the ORDER of its entries decides which value the element gets - key permutation is not meaning-preserving there"""
+    if n[0] == 'map':
+        return any((isinstance(k, int) and k < 0) or has_negative_key(c) for k, c in n[2])
+    if n[0] == 'seq':
+        return any(has_negative_key(c) for c in n[2])
+    return False
+
+
 def permute(n, rng):
     if n[0] == 'map':
         items = [(k, permute(c, rng)) for k, c in n[2]]
@@ -191,7 +201,8 @@ def run(rep, tier, rng):
     base.run_oracle(rep, 'C15', 'empty mapping document at every position', emp, judge_empty,
                     show=lambda c: dict(docs=show(c['docs']), pos=c['pos']))
     perm = [dict(docs=docs, perm=[permute(d, rng) for d in docs]) for docs in hist]
-    base.run_oracle(rep, 'C15', 'key permutation', perm, judge_perm, show=lambda c: dict(docs=show(c['docs']), perm=show(c['perm'])))
+    base.run_oracle(rep, 'C15', 'key permutation', perm, judge_perm, in_domain=lambda c: not any(has_negative_key(d) for d in c['docs']),
+                    show=lambda c: dict(docs=show(c['docs']), perm=show(c['perm'])))
     flg = []
     for docs in hist:
         for tag in ('!unsafe', '!new'):
